@@ -129,7 +129,7 @@ theorem cycles_track_global_min (c : Cfg) (sched) (nT nV nM : Nat) (hnv : nV ≠
 /-- regression witness for the repaired defect: without restoring `lowest_loss` the invariant breaks after load
 (history non-empty but lowest = none) and the next epoch overwrites the best networks with a WORSE loss -/
 theorem loadOld_breaks_tracking :
-    let c : Cfg := { loss := fun _ _ tr i => if tr then 0 else [3, 9].getD i 0, metric := fun _ _ _ _ => 0, nMetrics := 0,
+    let c : Cfg := { userLoss := fun _ _ tr i => if tr then 0 else [3, 9].getD i 0, metric := fun _ _ _ _ => 0, nMetrics := 0,
                      plainStep := fun _ => 1, closureShifts := fun _ => [] }
     let s := fits c (fun _ _ => []) 0 [1] (init 0 .plain 1 1 0)
     let l := fits c (fun _ _ => []) 0 [1] (loadOld (file s) 1 1 0)
@@ -137,7 +137,7 @@ theorem loadOld_breaks_tracking :
   decide
 
 example :
-    let c : Cfg := { loss := fun _ _ tr i => if tr then 0 else [3, 9].getD i 0, metric := fun _ _ _ _ => 0, nMetrics := 0,
+    let c : Cfg := { userLoss := fun _ _ tr i => if tr then 0 else [3, 9].getD i 0, metric := fun _ _ _ _ => 0, nMetrics := 0,
                      plainStep := fun _ => 1, closureShifts := fun _ => [] }
     let s := fits c (fun _ _ => []) 0 [1] (init 0 .plain 1 1 0)
     let l := fits c (fun _ _ => []) 0 [1] (load (file s) 1 1 0)
